@@ -509,7 +509,7 @@ def run_cli_child(root_path, args, cwd, env_extra):
     env.update({"PYTHONPATH": os.path.join(vlib.REPO, "src"), "PYTHONIOENCODING": "utf-8:surrogateescape",
                 "PYTHONDONTWRITEBYTECODE": "1"})
     env.update(env_extra)
-    p = subprocess.run([sys.executable, "-c", "import sys; from cm_colors.cli.main import main; sys.argv[0] = 'cm-colors'; main()", root_path] + list(args),
+    p = subprocess.run([sys.executable, "-c", "import sys; from cm_colors.cli.main import main; sys.argv[0] = 'cm-colors'; main()"] + ([root_path] if root_path is not None else []) + list(args),
                        cwd=cwd, env=env, capture_output=True, timeout=600)
     out = p.stdout.decode("utf-8", "replace")
     err = p.stderr.decode("utf-8", "replace")
@@ -533,7 +533,7 @@ def run_cli(root_path, args, cwd, env_extra=None):
             runner = CliRunner(mix_stderr=False)
         except TypeError:
             runner = CliRunner()
-        r = runner.invoke(cli_main, [root_path] + list(args))
+        r = runner.invoke(cli_main, ([root_path] if root_path is not None else []) + list(args))
     finally:
         os.chdir(old)
     out = r.stdout if hasattr(r, "stdout") else r.output
